@@ -579,6 +579,9 @@ func (c *control) dirJustify(colon, at bool, params []any) {
 	)
 	mincol = c.getIntParam(0, params, 0, true)
 	colinc = c.getIntParam(1, params, 1, true)
+	if colinc == 0 {
+		c.zeroColinc()
+	}
 	minpad = c.getIntParam(2, params, 0, true)
 	padchar = c.getCharParam(3, params, []byte{' '})
 
@@ -1375,6 +1378,9 @@ func (c *control) dirAS(colon, at bool, params []any, p *slip.Printer) {
 	padchar := []byte{' '}
 	mincol = c.getIntParam(0, params, mincol, true)
 	colinc = c.getIntParam(1, params, colinc, true)
+	if colinc == 0 {
+		c.zeroColinc()
+	}
 	minpad = c.getIntParam(2, params, minpad, true)
 	padchar = c.getCharParam(3, params, padchar)
 	for ; 0 < minpad; minpad-- {
@@ -1681,11 +1687,16 @@ func (c *control) dirIter(colon, at bool, params []any) {
 			if (len(c2.args) <= c2.argPos && !atLeastOnce) || c2.stop {
 				break
 			}
+			before := c2.argPos
 			c2.pos = start
 			c2.process()
 			c.out = append(c.out, c2.out...)
 			c2.out = c2.out[:0]
 			atLeastOnce = false
+			if n == math.MaxInt && c2.argPos <= before && c2.argPos < len(c2.args) && !c2.stop {
+				slip.ErrorPanic(c.scope, 0,
+					"iteration directive without a limit does not consume any arguments at %d of %q", start, c.str)
+			}
 		}
 		c.argPos = c2.argPos
 	default:
@@ -1701,11 +1712,16 @@ func (c *control) dirIter(colon, at bool, params []any) {
 			if (len(c2.args) <= c2.argPos && !atLeastOnce) || c2.stop {
 				break
 			}
+			before := c2.argPos
 			c2.pos = start
 			c2.process()
 			c.out = append(c.out, c2.out...)
 			c2.out = c2.out[:0]
 			atLeastOnce = false
+			if n == math.MaxInt && c2.argPos <= before && c2.argPos < len(c2.args) && !c2.stop {
+				slip.ErrorPanic(c.scope, 0,
+					"iteration directive without a limit does not consume any arguments at %d of %q", start, c.str)
+			}
 		}
 	}
 }
@@ -1790,6 +1806,10 @@ func (c *control) objAsList(obj slip.Object, loc string) (list slip.List) {
 
 func (c *control) invalidDir(buf []byte, pos int) {
 	slip.ErrorPanic(c.scope, 0, "invalid directive at %d of %q", pos-1, buf)
+}
+
+func (c *control) zeroColinc() {
+	slip.ErrorPanic(c.scope, 0, "column increment parameter must be positive at %d of %q", c.pos, c.str)
 }
 
 func (c *control) paramTooLarge() {
